@@ -91,7 +91,7 @@ def _get_target_times(
     # duration) except for the first (so that it still starts at 0)
     merged: list[float] = []
     for t in reversed(target_times):
-        if not merged or merged[-1] - t > 1e-12 * duration:
+        if not merged or merged[-1] - t > 2e-12 * duration:
             merged.append(t)
     merged[-1] = target_times[0]
     return merged[::-1]
